@@ -73,7 +73,7 @@ def jobs_for(cls, nr, nt, nsc, dirbc, assembly="sequential", only_lines=None):
 def shapes(tier):
     fam = [(5, 4, 2, (0, 1)), (6, 4, 3, (0, 1)), (5, 12, 2, (0,))]
     if tier != "quick":
-        fam += [(7, 8, 4, (0, 1)), (6, 8, 2, (0, 1)), (7, 4, 3, (0, 1)), (6, 12, 3, (1,)), (5, 20, 2, (0,))]
+        fam += [(7, 8, 4, (0,)), (6, 8, 2, (1,)), (7, 4, 3, (0, 1)), (6, 12, 3, (1,))]
     return fam
 
 
